@@ -178,6 +178,7 @@ def verify_function(c, registry, timeout_ms=10000, max_paths=None):
                 v = sort.fresh(ctx, name)
                 ghosts[name] = v
                 ctx.inputs[name] = (sort, v)
+            I.ghosts = ghosts
             if getattr(c, "wire", None):
                 c.wire(bound, ghosts)
             old = c.snapshot(bound)
